@@ -199,6 +199,32 @@ def mk_pipeline(name, max_shift=2509):
     return body
 
 
+def mk_pipeline_altloc(name, resnum, atom_name):
+    def body(ctx):
+        """a structure with two conformations (one atom has alternate locations A/B): listing every
+        ionizable residue == no option, in every conformation and in the average"""
+        from . import micro as M
+        k = ctx.int('shift_thousandths', 0, 300)
+        t = k / 1000.0 if ctx.native else k / 1000
+
+        def tr(a):
+            a.x = a.x + t
+        txt = M.altloc(M.text(name), resnum, atom_name)
+        sites = SITES[name]
+        base = M.run(txt, transform=tr)
+        opt = M.run(txt, args=['-i', ','.join(sites)], transform=tr)
+        ctx.claim('two-conformations', len(base.conformation_names) == 2 and base.conformation_names == opt.conformation_names)
+        for cname in list(base.conformation_names) + ['AVR']:
+            gb = [g for g in base.conformations[cname].groups if g.titratable]
+            go = [g for g in opt.conformations[cname].groups if g.titratable]
+            ctx.claim('listed-residues-titratable-in-every-conformation', sorted(g.label for g in gb) == sorted(g.label for g in go),
+                      detail='%s: %r vs %r' % (cname, sorted(g.label for g in gb), sorted(g.label for g in go)))
+        rb = M.reported(base)
+        ro = M.reported(opt)
+        ctx.claim('same-sites-reported', sorted(rb) == sorted(ro), detail='%r vs %r' % (rb, ro))
+    return body
+
+
 def obligations(tier):
     Lb = 'propka/lib.py:'
     obs = []
@@ -224,6 +250,12 @@ def obligations(tier):
                               bounds='micro-structure %s under a symbolic grid shift (0.3 A quick, 2.509 A thorough); every subset of its %d ionizable residues listed (fork), with and without entries for non-existent residues' % (name, len(SITES[name])),
                               claim_doc='reported <=> listed; desolvation, backbone H-bonds and side-chain H-bond partners of listed groups unchanged; all listed == no option',
                               max_paths=50000, shards=8, wall_s=170 if tier == 'quick' else 1200))
+    for name, rn, an in ([('pair_GLU_ARG_TYR', 57, 'CZ')] if tier == 'quick' else [('pair_GLU_ARG_TYR', 57, 'CZ'), ('pair_GLU_ARG_TYR', 35, 'CD'), ('pair_LYS_ASP', 43, 'NZ')]):
+        obs.append(Obligation('O4-pipeline-two-conformations[%s,%d %s]' % (name, rn, an), mk_pipeline_altloc(name, rn, an),
+                              code=['propka/run.py:single (whole pipeline)', 'propka/molecular_container.py:MolecularContainer.top_up_conformations', 'propka/atom.py:Atom.make_copy',
+                                    'propka/conformation_container.py:ConformationContainer.init_group'],
+                              bounds='%s with alternate locations A/B for atom %s of residue %d (two conformations, topped up from each other), symbolic shift; all ionizable residues listed vs no option' % (name, an, rn),
+                              claim_doc='the listed residues are titratable in every conformation and in the average; same sites reported as without the option', max_paths=5000, wall_s=170))
     return obs
 
 
